@@ -65,6 +65,10 @@ type c15Input struct {
 	Hold      bool `json:"hold,omitempty"`      // park the cleaner inside a Cleanup pass first
 	Staggered bool `json:"staggered,omitempty"` // start caller i+1 only once caller i is parked / back
 	LingerMs  int  `json:"linger_ms,omitempty"` // keep the cleaner parked this long after the callers settled
+	// resetrace: Rounds rounds of {Set the three other keys with ttl 1; advance 2 s; Set key Live; Reset;
+	// Get key Live} while another goroutine runs Cleanup back to back
+	Rounds int `json:"rounds,omitempty"`
+	Live   int `json:"live,omitempty"`
 }
 
 var longKey = strings.Repeat("L", 300)
@@ -705,6 +709,93 @@ func c15RunStops(ctx *core.Ctx, in c15Input) {
 	ctx.Sink.Add(cs)
 }
 
+// ---------------------------------------------------------------------------------------
+// resetrace: a Set landing while a Cleanup's bulk delete is in flight must still be seen by the
+// next Reset (known defect of the map underneath: the entry could become invisible to ForEach).
+// One client goroutine issues every operation except the Cleanups, which a second goroutine runs
+// back to back.  Each round ends with Reset; Get, so a round is judged on its own: the reported
+// history is the failing round (or the last one) preceded by the Reset that ended the round
+// before it - nothing older than a Reset can justify a hit.
+func c15RunResetRace(ctx *core.Ctx, in c15Input) {
+	if in.Rounds < 1 || in.Live < 0 || in.Live >= nKeys {
+		panic("c15: bad resetrace input")
+	}
+	clk := newClock(in.Mono)
+	c := ttlcache.VerifNewCache[int64](ttlcache.CacheOptions{
+		InitialSize:     in.InitialSize,
+		CleanupInterval: time.Duration(math.MaxInt64),
+		MaxTTL:          in.MaxTTL,
+	}, clk)
+	quit := make(chan struct{})
+	var wg sync.WaitGroup
+	wg.Add(1)
+	go func() {
+		defer wg.Done()
+		for {
+			select {
+			case <-quit:
+				return
+			default:
+				c.Cleanup()
+			}
+		}
+	}()
+	var (
+		lin    []c15Op
+		obs    []c15Res
+		failed = -1
+		ran    int
+	)
+	for round := 0; round < in.Rounds && failed < 0; round++ {
+		ran++
+		lin, obs = lin[:0], obs[:0]
+		do := func(o c15Op) c15Res {
+			r := apply(c, clk, in.KeySet, o)
+			lin = append(lin, o)
+			obs = append(obs, r)
+			return r
+		}
+		if round > 0 {
+			lin = append(lin, c15Op{Op: "reset"}) // the Reset that ended the previous round
+			obs = append(obs, c15Res{Kind: "unit"})
+		}
+		lin = append(lin, c15Op{Op: "cleanup"}) // Cleanups run unserialised all along
+		obs = append(obs, c15Res{Kind: "unit"})
+		for k := 0; k < nKeys; k++ {
+			if k != in.Live {
+				do(c15Op{Op: "set", K: k, V: int64(k), TTL: 1})
+			}
+		}
+		do(c15Op{Op: "adv", D: 2 * secondNs})
+		do(c15Op{Op: "set", K: in.Live, V: int64(1000 + round), TTL: 1000})
+		do(c15Op{Op: "reset"})
+		if r := do(c15Op{Op: "get", K: in.Live}); r.Kind == "hit" {
+			failed = round
+		}
+	}
+	close(quit)
+	wg.Wait()
+	var again c15Res
+	if failed >= 0 { // statistics only: does a second Reset get rid of it?
+		c.Reset()
+		again = apply(c, clk, in.KeySet, c15Op{Op: "get", K: in.Live})
+	}
+	returned, exited := stop(c)
+	cs := hx.Case{Kind: "resetrace", Input: hx.MustJSON(in), Facts: map[string]any{"maxttl": in.MaxTTL}}
+	cs.Class = fmt.Sprintf("resetrace/keyset=%d/live=%d/max%d", in.KeySet, in.Live, in.MaxTTL)
+	cs.Trivial = failed < 0 // a probe: nothing to tell apart unless it fails
+	cs.Observed = map[string]any{"rounds_run": ran, "failing_round": failed, "history": lin, "results": obs,
+		"history_starts_after_the_previous_rounds_reset": ran > 1, "stop_returned": returned, "cleaner_exited": exited}
+	if failed >= 0 {
+		cs.Observed.(map[string]any)["get_after_a_second_reset"] = again
+	}
+	cs.Coq = fmt.Sprintf("CConc %s %s %s %s %s", z(in.MaxTTL), coqOps(lin), coqRes(obs),
+		hx.CoqBool(returned), hx.CoqBool(exited))
+	ctx.Sink.Count("kind=resetrace")
+	ctx.Sink.Count(fmt.Sprintf("resetrace/keyset=%d", in.KeySet))
+	ctx.Sink.Add(cs)
+}
+
 func c15Run(ctx *core.Ctx, in c15Input) {
 	all := append([][]c15Op{in.Ops}, in.Threads...)
 	for _, ops := range all {
@@ -724,6 +815,8 @@ func c15Run(ctx *core.Ctx, in c15Input) {
 		c15RunConc(ctx, in)
 	case "stops":
 		c15RunStops(ctx, in)
+	case "resetrace":
+		c15RunResetRace(ctx, in)
 	default:
 		panic("c15: bad kind " + in.Kind)
 	}
@@ -975,6 +1068,19 @@ func c15Gen(ctx *core.Ctx) {
 				}
 			}
 		}
+	}
+	// --- Set racing a Cleanup's bulk delete, then Reset -------------------------------------
+	nrr, rounds2 := 4, 25000
+	if ctx.Thorough {
+		nrr, rounds2 = 20, 400000
+	}
+	for i := 0; i < nrr; i++ {
+		in := c15Input{Kind: "resetrace", KeySet: i % len(keySets), Live: r.Intn(nKeys), Rounds: rounds2,
+			MaxTTL: []int64{0, 0, 2000}[r.Intn(3)]}
+		if r.Chance(1, 3) {
+			in.InitialSize = int32(r.Range(1, 64))
+		}
+		c15Run(ctx, in)
 	}
 	// --- random sequential histories ---------------------------------------------------
 	nseq, lo, hi := 1100, 15, 50
